@@ -214,6 +214,37 @@ func runMlr(argv []string, stdin string) (int, string) {
 	}
 }
 
+// runMlrN runs an invocation that reads no input file (e.g. mlr -n put 'end{...}').
+func runMlrN(argv []string) (int, string) {
+	full := append([]string{"mlr", "--norc"}, argv...)
+	options, transformers, err := climain.ParseCommandLine(full)
+	if err != nil {
+		return 1, ""
+	}
+	var buf bytes.Buffer
+	ch := make(chan error, 1)
+	go func() {
+		defer func() {
+			if r := recover(); r != nil {
+				ch <- fmt.Errorf("panic: %v", r)
+			}
+		}()
+		ch <- stream.Stream(options.FileNames, options, transformers, nopCloser{&buf}, false)
+	}()
+	select {
+	case err := <-ch:
+		if err != nil {
+			if strings.HasPrefix(err.Error(), "panic:") {
+				return 2, buf.String()
+			}
+			return 1, buf.String()
+		}
+		return 0, buf.String()
+	case <-time.After(20 * time.Second):
+		return 3, buf.String()
+	}
+}
+
 func splitFlags(s string) []string {
 	if s == "-" || s == "" {
 		return nil
